@@ -3,6 +3,7 @@ import G3D.Props.C01
 import G3D.Props.C02
 import G3D.Proofs.AlgebraB
 import G3D.Proofs.BodySoundSets
+import G3D.Proofs.AlgebraAll
 /-! # C12 — intersection obeys the algebra of set intersection  (full for flats; partial for bodies)
     For flats everything follows from C01 because flats are closed under `intersection`.  For polygons the
     "vertices in both" clause follows from C02's exactness; self-intersection / subset / associativity for
@@ -67,5 +68,49 @@ theorem result_vertices_in_both (a b : Obj) (ha : OpWF a) (hb : OpWF b) (r : Obj
 /-- … and so does every point of the result (hull of the result's vertices) -/
 theorem result_subset_both (a b : Obj) (ha : OpWF a) (hb : OpWF b) (o : Option Obj) (h : inter a b = .ok o) :
     ∀ x, denOptB o x → OpDen a x ∧ OpDen b x := inter_result_subset a b ha hb o h
+
+
+/-! ### the laws for every admissible operand — flats, Valid polygons, polyhedra meeting `ExactHyp` — as long as no two
+    polyhedra meet directly (kernels K0–K3, K6; polyhedron × polyhedron needs K4) -/
+/-- `intersection(a, b)` returns None or an admissible operand denoting exactly a ∩ b -/
+theorem inter_exact_admissible (a b : Obj) (ha : OpOK a) (hb : OpOK b) (hnb : NotBothBodies a b) :
+    ExactOK (inter a b) (ObjDen a) (ObjDen b) := by
+  rw [Props.C04.inter_eq_ref]; exact interRef_exactOK a b ha hb hnb
+
+/-- **associativity, 7 × 7 × 7 type triples minus those with two polyhedra meeting directly**: both nestings return without
+    error (None absorbing) an admissible object denoting exactly a ∩ b ∩ c -/
+theorem assoc_all (a b c : Obj) (ha : OpOK a) (hb : OpOK b) (hc : OpOK c)
+    (hab : NotBothBodies a b) (hbc : NotBothBodies b c) :
+    ∃ ab bc l r, inter a b = .ok ab ∧ inter b c = .ok bc ∧
+      interOpt ab (some c) = .ok l ∧ interOpt (some a) bc = .ok r ∧ ResOK l ∧ ResOK r ∧
+      (∀ x, denOptB l x ↔ (ObjDen a x ∧ ObjDen b x ∧ ObjDen c x)) ∧
+      (∀ x, denOptB r x ↔ (ObjDen a x ∧ ObjDen b x ∧ ObjDen c x)) := by
+  obtain ⟨ab, bc, l, r, h1, h2, h3, h4, rest⟩ := interRef_assoc a b c ha hb hc hab hbc
+  refine ⟨ab, bc, l, r, by rw [Props.C04.inter_eq_ref]; exact h1, by rw [Props.C04.inter_eq_ref]; exact h2, ?_, ?_, rest⟩
+  · cases ab with
+    | none => simp only [interOptLB] at h3; cases h3; exact (Props.C04.interOpt_none _).1
+    | some g => simp only [interOpt]; rw [Props.C04.inter_eq_ref]; exact h3
+  · cases bc with
+    | none => simp only [interOptRB] at h4; cases h4; exact (Props.C04.interOpt_none _).2
+    | some g => simp only [interOpt]; rw [Props.C04.inter_eq_ref]; exact h4
+
+/-- `intersection(a, a)` denotes `a`: flats and polygons -/
+theorem self_all (a : Obj) (ha : OpOK a) (hnb : NotBothBodies a a) :
+    ∃ g, inter a a = .ok (some g) ∧ OpOK g ∧ ∀ x, ObjDen g x ↔ ObjDen a x := by
+  rw [Props.C04.inter_eq_ref]; exact interRef_self a ha hnb
+
+/-- `a ⊆ b`, a non-empty ⇒ `intersection(a, b)` and `intersection(b, a)` denote `a`: e.g. a polygon inside a polyhedron,
+    a segment inside a polygon, a polygon inside a plane -/
+theorem subset_all (a b : Obj) (ha : OpOK a) (hb : OpOK b) (hnb : NotBothBodies a b) (hnb' : NotBothBodies b a)
+    (hsub : ∀ x, ObjDen a x → ObjDen b x) (hne : ∃ x, ObjDen a x) :
+    (∃ g, inter a b = .ok (some g) ∧ ∀ x, ObjDen g x ↔ ObjDen a x) ∧
+    (∃ g, inter b a = .ok (some g) ∧ ∀ x, ObjDen g x ↔ ObjDen a x) := by
+  rw [Props.C04.inter_eq_ref, Props.C04.inter_eq_ref]; exact interRef_of_subset a b ha hb hnb hnb' hsub hne
+
+/-- the result lies in both operands AND nothing of a ∩ b is missed -/
+theorem result_is_intersection (a b : Obj) (ha : OpOK a) (hb : OpOK b) (hnb : NotBothBodies a b) (o : Option Obj)
+    (h : inter a b = .ok o) : ∀ x, denOptB o x ↔ (ObjDen a x ∧ ObjDen b x) := by
+  obtain ⟨o', ho', _, hd⟩ := inter_exact_admissible a b ha hb hnb
+  rw [h] at ho'; cases ho'; exact hd
 
 end G3D.Props.C12
